@@ -1,6 +1,7 @@
 import Slock.Proofs.TextChunk
 import Slock.Proofs.TextNorm
 import Slock.Proofs.TextConv
+import Slock.Proofs.TextResp
 /-!
 # C14 (text part) — the RESP request parser, BuildRequest, key/id normalisation, text LOCK/UNLOCK, result rendering
 
@@ -24,7 +25,8 @@ theorem parse_build (args : List Bytes) (h : sizeOK args) :
 theorem parse_build_many (cmds : Cmds) (h : ∀ c ∈ cmds, sizeOK c) :
     (parseAll [(cmds.map buildRequest).flatten]).outcome = (cmds, .done) := by
   obtain ⟨l', h2⟩ := buildManyRun cmds h {} []
-  simp [parseAll, feed, h2, Run.outcome]
+  have e := map_drop_ty cmds
+  simp [parseAll, feed, h2, Run.outcome, e]
 
 example : sizeOK [[76, 79, 67, 75], [], [13, 10, 0, 36, 42]] := by
   refine ⟨by simp, by simp, ?_⟩
@@ -45,7 +47,7 @@ forgotten at any byte position.
 (Before the repair `fix: TextParser sets cargIndex to the argument's full length…` this was false even on
 BuildRequest output; the counterexample `*1\r\n$2\r\na | b | \r\n ↦ "ab\r"` was a theorem here.) -/
 theorem chunking_invariant (stream : Bytes) (chunks : List Bytes) (hflat : chunks.flatten = stream)
-    (c : Cmds) (sf : PState) (lf : Loc) (href : parseAll [stream] = .ok c sf lf) :
+    (c : Replies) (sf : PState) (lf : Loc) (href : parseAll [stream] = .ok c sf lf) :
     ∃ lf', parseAll chunks = .ok c sf lf' := by
   subst hflat
   unfold parseAll feed at href
@@ -63,10 +65,11 @@ theorem chunking_invariant_wellformed (cmds : Cmds) (h : ∀ c ∈ cmds, sizeOK 
     (hflat : chunks.flatten = (cmds.map buildRequest).flatten) :
     (parseAll chunks).outcome = (cmds, .done) := by
   obtain ⟨l', h2⟩ := buildManyRun cmds h {} []
-  have href : parseAll [(cmds.map buildRequest).flatten] = .ok cmds {} {} := by
+  have href : parseAll [(cmds.map buildRequest).flatten] = .ok (cmds.map (fun c => (0, c))) {} {} := by
     simp [parseAll, feed, h2]
-  obtain ⟨lf', h3⟩ := chunking_invariant _ chunks hflat cmds {} {} href
-  simp [h3, Run.outcome]
+  obtain ⟨lf', h3⟩ := chunking_invariant _ chunks hflat _ {} {} href
+  have e := map_drop_ty cmds
+  simp [h3, Run.outcome, e]
 
 /-- the former counterexample, now parsed correctly (regression witness) -/
 theorem chunking_regression :
@@ -204,5 +207,116 @@ theorem every_result_code_has_rendering (r : ResultCmd) (h : r.result ≤ Slock.
 
 /-- the table has exactly one entry per defined result code -/
 theorem error_msg_complete : Slock.Gen.C.ERROR_MSG.length = Slock.Gen.C.RESULT_LOCK_ACK_WAITING + 1 := by decide
+
+/-! ## (f) the response parser (`TextParser.ParseResponse`, driven like `client.TextClientProtocol.Read`) -/
+
+/-- `+<text>\r\n`: any text without CR / LF (the empty text included) is read back as `(1, [text])`.
+(Before the repair `fix: ParseResponse accumulates the text of + and - replies byte-exactly across reads …` the empty
+text was read back as `"\r"`, in one buffer.) -/
+theorem parse_build_response_ok (msg : Bytes) (h : ∀ b ∈ msg, b ≠ 10 ∧ b ≠ 13) :
+    (parseAllR [buildResponse true msg []]).outcomeR = ([(1, [msg])], .done) := by
+  have h10 : ∀ b ∈ msg, b ≠ 10 := fun b hb => (h b hb).1
+  have h13 : ∀ b ∈ msg, b ≠ 13 := fun b hb => (h b hb).2
+  have := textRun1 msg h10 [] [] 0 0 0 ⟨some 43, .entry⟩ [] []
+  simp only [List.nil_append] at this
+  simp [parseAllR, feed, buildResponse, crlf, runBytes, step, step0R, this, stripCR_id msg h13, Run.outcomeR]
+
+/-- `-<TYPE> <message>\r\n`: type without blank / CR / LF, message without CR / LF → `(2, [TYPE, message])` -/
+theorem parse_build_response_error (type msg : Bytes) (ht : ∀ b ∈ type, b ≠ 10 ∧ b ≠ 13 ∧ b ≠ 32)
+    (hm : ∀ b ∈ msg, b ≠ 10 ∧ b ≠ 13) :
+    (parseAllR [buildResponse false (type ++ 32 :: msg) []]).outcomeR = ([(2, [type, msg])], .done) := by
+  have h1 := typeRunBlank type (fun b hb => ⟨(ht b hb).1, (ht b hb).2.2⟩) [] [] [] 0 0 0 ⟨some 45, .entry⟩ []
+    (msg ++ [13, 10])
+  have h2 := textRun2 msg (fun b hb => (hm b hb).1) (stripCR type) [] [] 0 0 0 ⟨some 32, .entry⟩ [] []
+  simp only [List.nil_append] at h1 h2
+  have e1 := stripCR_id type (fun b hb => (ht b hb).2.1)
+  have e2 := stripCR_id msg (fun b hb => (hm b hb).2)
+  have hs : 45 :: (type ++ 32 :: msg ++ [13, 10]) = 45 :: (type ++ 32 :: (msg ++ [13, 10])) := by simp
+  simp only [parseAllR, feed, buildResponse, crlf, Bool.not_false, if_true]
+  rw [hs, runBytes]
+  simp only [step, step0R, if_true, show ((45 : UInt8) = 43) = False by decide, if_false, List.nil_append]
+  rw [h1, h2]
+  simp [runBytes, e1, e2, Run.outcomeR]
+
+/-- `-<TYPE>\r\n` → `(2, [TYPE, ""])` -/
+theorem parse_build_response_error_bare (type : Bytes) (ht : ∀ b ∈ type, b ≠ 10 ∧ b ≠ 13 ∧ b ≠ 32) :
+    (parseAllR [buildResponse false type []]).outcomeR = ([(2, [type, []])], .done) := by
+  have h1 := typeRunEnd type (fun b hb => ⟨(ht b hb).1, (ht b hb).2.2⟩) [] [] [] 0 0 0 ⟨some 45, .entry⟩ [] []
+  simp only [List.nil_append] at h1
+  have e1 := stripCR_id type (fun b hb => (ht b hb).2.1)
+  simp only [parseAllR, feed, buildResponse, crlf, Bool.not_false, if_true]
+  rw [runBytes]
+  simp only [step, step0R, if_true, show ((45 : UInt8) = 43) = False by decide, if_false, List.nil_append]
+  rw [h1]
+  simp [runBytes, e1, Run.outcomeR]
+
+/-- a single result is a bulk string `$<len>\r\n<bytes>\r\n` — any bytes — and is read back as `(3, [r])` -/
+theorem parse_build_response_bulk (msg r : Bytes) (hr : r.length < 9223372036854775808) :
+    (parseAllR [buildResponse true msg [r]]).outcomeR = ([(3, [r])], .done) := by
+  have hb := bulkRun r hr [] 0 true 3 ⟨some 36, .entry⟩ [] []
+  simp only [List.append_nil, List.nil_append] at hb
+  have e : runBytes { resp := true } {} [] (bulk r) = runBytes ⟨.s2, [], 0, 0, [], 0, true, 3⟩ ⟨some 36, .entry⟩ [] (bulk r) := by
+    unfold bulk
+    simp [runBytes, step, step0R]
+  simp only [parseAllR, feed, buildResponse, Bool.not_true, Bool.false_eq_true, if_false]
+  rw [e, hb]
+  simp [runBytes, Run.outcomeR]
+
+/-- two or more results are an array of bulk strings and are read back as `(4, results)` -/
+theorem parse_build_response_array (msg : Bytes) (rs : List Bytes) (h2 : 2 ≤ rs.length) (h : sizeOK rs) :
+    (parseAllR [buildResponse true msg rs]).outcomeR = ([(4, rs)], .done) := by
+  obtain ⟨hne, hcount, hlen⟩ := h
+  have hv := atoi_natToDec rs.length hcount
+  have hl := natToDec_length rs.length hcount
+  have hn := numLine_s1 (natToDec rs.length) (natToDec_all_digit _) [] (by simp; omega) (rs.length : Int) (by simpa using hv)
+    0 0 [] 0 true 4 ⟨some 42, .entry⟩ [] (bulks rs)
+  have hb := bulksRun rs hne hlen true 4 [] ⟨some 10, .entry⟩ [] []
+  simp only [List.append_nil, List.nil_append, List.length_nil, Nat.zero_add] at hb
+  cases rs with
+  | nil => simp at h2
+  | cons a rest =>
+    cases rest with
+    | nil => simp at h2
+    | cons b rest =>
+      simp only [parseAllR, feed, buildResponse, Bool.not_true, Bool.false_eq_true, if_false, crlf]
+      rw [runBytes]
+      simp only [step, step0R, if_true, show ((42 : UInt8) = 43) = False by decide, show ((42 : UInt8) = 45) = False by decide,
+        show ((42 : UInt8) = 36) = False by decide, if_false, List.cons_append, List.nil_append]
+      rw [hn, hb]
+      simp [runBytes, Run.outcomeR]
+
+example : (parseAllR [[45, 69, 82, 82, 32, 120, 13, 10]]).outcomeR = ([(2, [[69, 82, 82], [120]])], .done) := by decide
+
+/-- Independence of the framing, response side, at full strength: for EVERY byte stream on which the one-buffer
+`ParseResponse` loop does not fail and EVERY chunking of it, the chunked parse yields the same replies `(argsType, args)`
+and the same parser state.  (Same induction as on the request side; stages 5 / 6 keep no chunk-local information but
+the previous byte.) -/
+theorem chunking_invariant_response (stream : Bytes) (chunks : List Bytes) (hflat : chunks.flatten = stream)
+    (c : Replies) (sf : PState) (lf : Loc) (href : parseAllR [stream] = .ok c sf lf) :
+    ∃ lf', parseAllR chunks = .ok c sf lf' := by
+  subst hflat
+  unfold parseAllR feed at href
+  cases h1 : runBytes { resp := true } {} [] chunks.flatten with
+  | err a => simp [h1] at href
+  | panic a => simp [h1] at href
+  | ok a s l =>
+    simp only [h1, feed, Run.ok.injEq] at href
+    rw [href.1, href.2.1] at h1
+    exact feed_eq_run chunks { resp := true } [] c sf l h1
+
+/-- regression witnesses of the three repaired misparses: `+OK` | `\r\n`, `+OK\r` | `\n`, `-ERR` | ` x\r\n`, `+a\r` | `b\r\n` -/
+theorem response_chunking_regression :
+    (parseAllR [[43, 79, 75], [13, 10]]).outcomeR = (([(1, [[79, 75]])] : Replies), Status.done) ∧
+    (parseAllR [[43, 79, 75, 13], [10]]).outcomeR = (([(1, [[79, 75]])] : Replies), Status.done) ∧
+    (parseAllR [[45, 69, 82, 82], [32, 120, 13, 10]]).outcomeR = (([(2, [[69, 82, 82], [120]])] : Replies), Status.done) ∧
+    (parseAllR [[43, 97, 13], [98, 13, 10]]).outcomeR = (parseAllR [[43, 97, 13, 98, 13, 10]]).outcomeR := by
+  refine ⟨by decide, by decide, by decide, by decide⟩
+
+/-- observations (not violations): an integer reply `:1\r\n` — which the server does send for DEL / EXISTS / INCR … — is
+not understood by this parser at all, and the nil bulk `$-1\r\n` never completes -/
+theorem response_parser_gaps :
+    (parseAllR [[58, 49, 13, 10]]).outcomeR = (([] : Replies), Status.err) ∧
+    (parseAllR [[36, 45, 49, 13, 10]]).outcomeR = (([] : Replies), Status.pending) := by
+  refine ⟨by decide, by decide⟩
 
 end Slock.C14T
